@@ -76,7 +76,17 @@ func (e *Engine) verifyFunction(fn *ssa.Function, con *Contract) {
 		if !relevant {
 			continue
 		}
-		e.verifyCase(fn, con, ci, sc)
+		func() {
+			// a crash of the generator on (changed) code must not hide everything else: the
+			// function's remaining obligations simply are not generated, which the baseline
+			// comparison reports as missing
+			defer func() {
+				if r := recover(); r != nil {
+					e.toolError("generator crashed in %s: %v", key, r)
+				}
+			}()
+			e.verifyCase(fn, con, ci, sc)
+		}()
 	}
 }
 
